@@ -9,7 +9,7 @@ import os
 import numpy as np
 from hypothesis import strategies as st
 
-from ..core import SubCheck, Violation, cut, quiet, require
+from ..core import EDIT_LEVELS, SubCheck, Violation, cut, live_edit, quiet, require, transient_io_fault
 from ..oracles import radio as orad
 from ..rng_script import ScriptExhausted, scripted
 from ..strategies import log_uniform, near, ulp_step
@@ -102,6 +102,9 @@ def build_events(case):
             L[i] = ulp_step(length[i] / math.cos(theta[i]), e["right_angle"])
         if e["override"] is not None:
             alt[i] = e["override"]
+            # a tau that (almost) never decays reaches the stage with an infinite / astronomically large decay length
+            if e.get("far") is not None and not (0.0 <= alt[i] <= 10.0):
+                length[i] = e["far"]
     return beta, alt, length, theta, L, E
 
 
@@ -223,7 +226,19 @@ def body_chain(case):
         with scripted(np.full(n * 200 + 16, c)), quiet():
             with cut("EASRadio (live object, first band)"):
                 live(beta, alt, length, theta, L, E)
-        live_conf.detector.radio.high_frequency = float(hi2)
+        level = case.get("edit_level", "leaf")
+        live_edit(live, ("detector", "radio"), {"high_frequency": float(hi2)}, level)
+        if case.get("io_fault"):
+            # the first call after the re-tune runs out of file descriptors while it reads its tables; the caller
+            # catches the error and tries again: the retry is what is compared with the fresh object
+            with transient_io_fault(1) as fault, scripted(np.full(n * 200 + 16, c)), quiet():
+                try:
+                    live(beta, alt, length, theta, L, E)
+                except OSError:
+                    pass
+            fault_fired = fault["fired"]
+        else:
+            fault_fired = False
         with scripted(np.full(n * 200 + 16, c)), quiet():
             with cut(f"EASRadio (live object re-tuned from {lo}-{hi} to {lo}-{hi2} MHz)"):
                 F5 = np.asarray(live(beta, alt, length, theta, L, E), dtype=np.float64)
@@ -232,6 +247,9 @@ def body_chain(case):
     labels = set()
     if hi2 != hi:
         labels.add("live_object_retuned")
+        labels.add("live_edit_" + level)
+        if fault_fired:
+            labels.add("retry_after_io_fault")
     if inside.any() and (~inside).any():
         labels.add("both_sides_of_altitude_limit")
     if (lo, hi) != (30, 300):
@@ -307,7 +325,7 @@ alt_target = st.one_of(
     st.floats(10.0, 14.0),
     st.integers(0, 9).map(lambda k: k + 0.5),
 )
-override = st.one_of(st.none(), st.none(), st.none(), st.sampled_from([-1.0, -5.0, -1e-9, ulp_step(0.0, -1), ulp_step(10.0, 1), 10.000001, 15.0, 100.0, -0.5]))
+override = st.one_of(st.none(), st.none(), st.none(), st.sampled_from([-1.0, -5.0, -1e-9, ulp_step(0.0, -1), ulp_step(10.0, 1), 10.000001, 15.0, 100.0, -0.5, float("inf"), 1e300]))
 event = st.fixed_dictionaries(
     {
         "beta": beta_st,
@@ -317,6 +335,7 @@ event = st.fixed_dictionaries(
         "loge": st.floats(-5.0, 4.0),
         "right_angle": st.one_of(st.none(), st.none(), st.none(), st.integers(-3, 3)),
         "override": override,
+        "far": st.sampled_from([None, None, float("inf"), 1e305, 1e200]),
     }
 )
 band = st.one_of(
@@ -342,6 +361,8 @@ SUBCHECKS = [
                 "kfac": st.sampled_from([2.0, 3.0, 0.5, 10.0, 7.3]),
                 "perm": st.lists(st.floats(0, 1), min_size=10, max_size=10),
                 "hi2": st.integers(1, 165).map(lambda k: 10 * k),
+                "edit_level": st.sampled_from(EDIT_LEVELS),
+                "io_fault": st.booleans(),
             }
         ),
         body_chain,
